@@ -217,8 +217,20 @@ def do_replay(ctx):
 
 
 def run(ctx):
-    if getattr(ctx, "replay", None):
-        return do_replay(ctx)
+    # a private work directory: Ctx() of a concurrent `./check C15` (another builder, the lead) would wipe the shared one
+    ctx.workdir = ctx.workdir + "-%d" % os.getpid()
+    os.makedirs(ctx.workdir, exist_ok=True)
+    try:
+        rc = do_replay(ctx) if getattr(ctx, "replay", None) else run_check(ctx)
+    finally:
+        if not ctx.violations:
+            shutil.rmtree(ctx.workdir, ignore_errors=True)
+        else:
+            print("C15: work files kept in %s" % ctx.workdir)
+    return rc
+
+
+def run_check(ctx):
     t0 = time.time()
     s1 = ctx.proof_obligations()
     print("C15: S1 proof obligations %s in %.1fs (build %.1fs; waits on the shared coq lock included)" % (
